@@ -151,7 +151,7 @@ class Clock:
         return int(r) if q == r else None
 
 
-CLOCKS = [Clock(0, 1), Clock(0, 0.125), Clock(1.5e9, 0.125), Clock(1.5e9, 2.0 ** -10), Clock(1.5e9 + 0.5, 0.25)]
+CLOCKS = [Clock(0, 1), Clock(0, 0.125), Clock(1.5e9, 0.125), Clock(1.5e9, 2.0 ** -10), Clock(1.5e9 + 0.5, 0.25), Clock(-1, 1), Clock(-0.5, 0.125)]
 
 
 def se3(rot, pos):
@@ -184,3 +184,19 @@ def frac(x, maxden=1 << 20, tol=1e-9):
     if abs(float(f) - x) > tol * max(1.0, abs(x)):
         return None
     return [f.numerator, f.denominator]
+
+
+# index order shared with spec/lib/ExactGeom.tla (tools/gen_exactgeom.py): 1..24 proper, 25..48 improper
+ALL48 = O24 + IMPROPER
+ROT_INDEX = {r: k + 1 for k, r in enumerate(ALL48)}
+
+
+def rot(k):
+    """signed permutation of ExactGeom rotation index k (1..48)"""
+    return ALL48[k - 1]
+
+
+def alpha_rot_index(m, tol=1e-7):
+    """ExactGeom index of a 3x3 matrix, -1 if it is not (within tol) a signed permutation matrix"""
+    r = alpha_rot(m, tol)
+    return ROT_INDEX[tuple(r)] if r is not None else -1
